@@ -555,9 +555,10 @@ def _known_unsolved(case, subcheck, detail):
 def _known_redundant(case, subcheck, detail):
     """solve() on a consistent system with a redundant (repeated / scaled) equation and a target list: one
     dependent variable per *line* is solved for, so the solved form has more lines than the rank and pins
-    a free variable (x1 = 0.5 ...): it describes a proper subset of the solutions"""
-    return (subcheck == 'C12.solve_contains' and isinstance(case, dict) and case.get('redundant') is not None
-            and isinstance(detail, dict) and len(E.text_lines(detail.get('output', ''))) > len(case.get('A', [])))
+    a free variable (x1 = 0.5 ...): it describes a proper subset of the solutions; or - without a target - an
+    independent equation is lost together with the repeated one and the solved form has fewer lines than the rank"""
+    return (subcheck in ('C12.solve_contains', 'C12.solve_sound') and isinstance(case, dict) and case.get('redundant') is not None
+            and isinstance(detail, dict) and len(E.text_lines(detail.get('output', ''))) != len(case.get('A', [])))
 
 
 def _known_singular_choice(case, subcheck, detail):
@@ -691,6 +692,12 @@ def run_solve(case, ctx):
     cond = sv[0] / sv[ne - 1] if sv[ne - 1] > 0 else math.inf
     if cond > 1e5:
         ctx.exclude('ill-conditioned(cond>1e5)')
+        return
+    nz = [abs(a) for r in rows for a in r if a != 0]
+    if nz and max(nz) / min(nz) > 1e4:
+        # rows that mix coefficients of 1 and 1e6: the natural sizes of the unknowns differ by that factor, sympy's float
+        # elimination leaves noise of 1e-6 in the large ones, and no single band fits every line of the solved form
+        ctx.exclude('badly-scaled(coefficient ratio>1e4)')
         return
     kw = dict(variables=variables)
     if case['target'] is not None:
